@@ -672,6 +672,11 @@ func (x *h2conn) do(p *plan, h *hooks, res *result) {
 		if strings.Contains(out.err.Error(), "GOAWAY") {
 			// the server's GOAWAY carried a last-stream-id below this request's stream: "not processed, retry elsewhere"
 			res.Kind = "goaway-refused"
+			if strings.Contains(out.err.Error(), "sent GOAWAY and closed the connection") {
+				// x/net reports this for streams at or below the GOAWAY's last-stream-id that were still open when
+				// the server closed the connection: the server promised to process them and did not complete them
+				res.Kind = "goaway-accepted-stream-not-completed"
+			}
 		}
 		if strings.Contains(out.err.Error(), "PROTOCOL_ERROR") {
 			// the client's framer rejected what the server sent (e.g. a first frame that is not SETTINGS)
